@@ -10,6 +10,7 @@ the server answers and the workers run) and every site/filter instantiation
 -/
 import Proofs.Lemmas.CrawlAcct
 import Proofs.Lemmas.CrawlTerm
+import Proofs.Lemmas.CrawlKey
 namespace Wpull.Crawl
 
 variable {c : Cfg} {conc : Nat} {starts : List Url} {s : St}
@@ -188,6 +189,142 @@ theorem complete_exactly_once {acc : Url → Bool} {links : Url → List Child} 
   · intro hc; rw [if_pos (hcond.mpr hc)]
   · intro hc; rw [if_neg (fun h' => hc (hcond.mp h'))]
 
+/-! ### scopes that depend on the record (depth limit, page requisites, `--no-parent`) -/
+
+/-- A scope whose verdict and offered links may depend on the whole *record* of a row - its URL, its
+depth and its requisite depth - as `LevelFilter`, `RecursiveFilter` and `ParentFilter` do; no redirects. -/
+structure Scoped (c : Cfg) (acc : Row → Bool) (links : Row → List Child) : Prop where
+  visit_acc : ∀ r, acc r = true → c.visit r = ⟨[r.url], .done, links r⟩
+  visit_rej : ∀ r, acc r = false → c.visit r = ⟨[], .skipped, []⟩
+  key_acc : ∀ a b, keyEq a b → acc a = acc b
+  key_links : ∀ a b, keyEq a b → links a = links b
+
+theorem Scoped.noFail {acc : Row → Bool} {links : Row → List Child} (hs : Scoped c acc links) : c.NoFail := by
+  intro r
+  cases h : acc r
+  · right; rw [hs.visit_rej r h]
+  · left; rw [hs.visit_acc r h]
+
+open Classical in
+theorem count_outs_rec {acc : Row → Bool} {links : Row → List Child} (hs : Scoped c acc links) (u : Url)
+    (outs : List Row) (hn : (urls outs).Nodup) :
+    sumOver (fun o => (c.visit o).requests.count u) outs =
+      if ∃ o ∈ outs, o.url = u ∧ acc o = true then 1 else 0 := by
+  induction outs with
+  | nil => simp
+  | cons o t ih =>
+    simp only [urls_cons, List.nodup_cons] at hn
+    rw [sumOver_cons, ih hn.2]
+    cases hacc : acc o
+    · rw [hs.visit_rej o hacc]
+      have : (∃ o' ∈ o :: t, o'.url = u ∧ acc o' = true) ↔ (∃ o' ∈ t, o'.url = u ∧ acc o' = true) := by
+        constructor
+        · rintro ⟨o', ho', h1, h2⟩
+          rcases List.mem_cons.mp ho' with rfl | ho'
+          · rw [hacc] at h2; cases h2
+          · exact ⟨o', ho', h1, h2⟩
+        · rintro ⟨o', ho', h1, h2⟩; exact ⟨o', List.mem_cons_of_mem _ ho', h1, h2⟩
+      simp only [List.count_nil, Nat.zero_add, this]
+    · rw [hs.visit_acc o hacc]
+      by_cases hu : o.url = u
+      · have hno : ¬ ∃ o' ∈ t, o'.url = u ∧ acc o' = true := by
+          rintro ⟨o', ho', h1, _⟩
+          exact hn.1 (mem_urls.mpr ⟨o', ho', h1.trans hu.symm⟩)
+        have hyes : ∃ o' ∈ o :: t, o'.url = u ∧ acc o' = true := ⟨o, List.mem_cons_self, hu, hacc⟩
+        rw [if_neg hno, if_pos hyes]
+        simp [hu]
+      · have : (∃ o' ∈ o :: t, o'.url = u ∧ acc o' = true) ↔ (∃ o' ∈ t, o'.url = u ∧ acc o' = true) := by
+          constructor
+          · rintro ⟨o', ho', h1, h2⟩
+            rcases List.mem_cons.mp ho' with rfl | ho'
+            · exact absurd h1 hu
+            · exact ⟨o', ho', h1, h2⟩
+          · rintro ⟨o', ho', h1, h2⟩; exact ⟨o', List.mem_cons_of_mem _ ho', h1, h2⟩
+        have hc : List.count u [o.url] = 0 := by simp [hu]
+        simp only [hc, Nat.zero_add, this]
+
+/-- every final row was handed out with exactly the record it is stored with -/
+theorem out_of_final_row (hw : c.WF) {k : Bool} (h : Reach c conc starts k s) {x : Row} (hx : x ∈ s.table)
+    (hfin : x.status = .done ∨ x.status = .skipped) : ∃ o ∈ s.outs, keyEq x o := by
+  have ha := reach_invA hw h
+  have hb := reach_invB hw h
+  have hc := reach_invC hw h
+  obtain ⟨o, ho, eo⟩ := hb.notTodoOut x hx (by rcases hfin with h | h <;> rw [h] <;> simp)
+  obtain ⟨r, hr, hk⟩ := hc.outKey o ho
+  have : r = x := row_unique ha.nodup hr hx (hk.1.trans eo)
+  subst this
+  exact ⟨o, ho, hk⟩
+
+open Classical in
+/-- **C01 (what the crawl computes when the scope depends on depth / requisite-ness)**  For every
+record-dependent scope, at the end of any crash-free run - any number of workers, any order of answers -
+the table is *closed under the links of its accepted STORED records*: every row is final; a row is
+requested exactly once if its stored record is in scope and never otherwise; every link of an accepted
+stored record is in the table; every row is a start URL or was offered by an accepted stored record,
+with the child record of that parent; nothing outside the table is ever requested.
+This is the exact sense in which "the first record wins": the stored record of a URL - not its best
+one - decides (findings `missing-url/depth-race` and `missing-url/requisite-shadowed`); for a scope that
+does not look at the record it is `complete_exactly_once`. -/
+theorem closure_of_stored_records {acc : Row → Bool} {links : Row → List Child} (hs : Scoped c acc links)
+    (h : Reach c conc starts false s) (hq : quiescent s = true) :
+    (∀ r ∈ s.table, r.status = .done ∨ r.status = .skipped) ∧
+    (∀ u ∈ starts, u ∈ urls s.table) ∧
+    (∀ x ∈ s.table, acc x = true → ∀ k ∈ links x, k.url ∈ urls s.table) ∧
+    (∀ x ∈ s.table, (x.url ∈ starts ∧ x.level = 0 ∧ x.inline = none) ∨
+        ∃ p ∈ s.table, acc p = true ∧ ∃ k ∈ links p, keyEq x (childRow p k)) ∧
+    (∀ x ∈ s.table, s.log.count x.url = if acc x = true then 1 else 0) ∧
+    (∀ u, u ∉ urls s.table → s.log.count u = 0) := by
+  have hw := hs.noFail.wf
+  have ha := reach_invA hw h
+  have hb := reach_invB hw h
+  have hc := reach_invC hw h
+  have hfin := all_final hw h hq
+  refine ⟨hfin, hb.startsIn, ?_, ?_, ?_, ?_⟩
+  · -- closure
+    intro x hx hacc k hk
+    obtain ⟨o, ho, hko⟩ := out_of_final_row hw h hx (hfin x hx)
+    have hacco : acc o = true := by rw [← hs.key_acc x o hko]; exact hacc
+    rcases hb.kids o ho with hk' | ⟨y, hy, h1, _, _, _, h5⟩
+    · rw [hs.visit_acc o hacco] at hk'
+      apply hk'.1
+      rw [← hs.key_links x o hko]; exact hk
+    · have : y = x := row_unique ha.nodup hy hx (h1.trans hko.1.symm)
+      subst this
+      rcases hfin y hy with h | h <;> rcases h5 with h' | h' <;> rw [h] at h' <;> cases h'
+  · -- provenance
+    intro x hx
+    rcases hc.prov x hx with hp | ⟨o, ho, k, hk, hkx⟩
+    · exact Or.inl hp
+    · right
+      obtain ⟨p, hp, hkp⟩ := hc.outKey o ho
+      cases hacco : acc o
+      · rw [hs.visit_rej o hacco] at hk; cases hk
+      · rw [hs.visit_acc o hacco] at hk
+        refine ⟨p, hp, by rw [hs.key_acc p o hkp]; exact hacco, k, ?_, hkx.trans (keyEq_childRow hkp k).symm⟩
+        rw [hs.key_links p o hkp]; exact hk
+  · -- exactly once / never, by the stored record
+    intro x hx
+    rw [request_accounting hw h hq x.url, count_outs_rec hs x.url s.outs (visit_once hs.noFail h)]
+    obtain ⟨o, ho, hko⟩ := out_of_final_row hw h hx (hfin x hx)
+    have hiff : (∃ o' ∈ s.outs, o'.url = x.url ∧ acc o' = true) ↔ acc x = true := by
+      constructor
+      · rintro ⟨o', ho', h1, h2⟩
+        obtain ⟨r, hr, hk⟩ := hc.outKey o' ho'
+        have : r = x := row_unique ha.nodup hr hx (hk.1.trans h1)
+        subst this
+        rw [hs.key_acc r o' hk]; exact h2
+      · intro hacc
+        exact ⟨o, ho, hko.1.symm, by rw [← hs.key_acc x o hko]; exact hacc⟩
+    by_cases hacc : acc x = true
+    · rw [if_pos (hiff.mpr hacc), if_pos hacc]
+    · rw [if_neg (fun h' => hacc (hiff.mp h')), if_neg hacc]
+  · -- nothing outside the table
+    intro u hu
+    rw [request_accounting hw h hq u, count_outs_rec hs u s.outs (visit_once hs.noFail h)]
+    rw [if_neg]
+    rintro ⟨o, ho, h1, _⟩
+    exact hu (h1 ▸ (hb.outsIn o ho).1)
+
 /-- **C01 (termination)** A failure-free crawl of a finite site always ends: if every offered link
 lies in a finite universe `U` (the site's URLs) and a visit sends at most `R` requests, then EVERY
 crash-free run — any number of workers, any schedule — has at most `(R + 3) · |U|` steps.  So the
@@ -353,5 +490,42 @@ theorem requisite_shadowed_counterexample :
     rw [hs] at this; simpa using this
   · have : (run shadowCfg 3 [0] (init [0]) es).map (fun s => decide (2 ∈ s.log)) = some false := by decide
     rw [hs] at this; simpa using this
+
+/-- the scope of the requisite-shadowed finding is a record-dependent scope in the sense of `Scoped`
+(non-vacuity of `closure_of_stored_records`): URL 2 is accepted only with a requisite record -/
+def shadowAcc (r : Row) : Bool := r.url == 0 || r.url == 1 || (r.url == 2 && r.inline.isSome)
+def shadowLinks (r : Row) : List Child :=
+  if r.url == 0 then [⟨2, false⟩, ⟨1, false⟩] else if r.url == 1 then [⟨2, true⟩] else []
+
+theorem shadow_scoped : Scoped shadowCfg shadowAcc shadowLinks where
+  visit_acc := by
+    intro r h
+    rcases r with ⟨u, st, l, i, t⟩
+    simp only [shadowAcc, Bool.or_eq_true, Bool.and_eq_true, beq_iff_eq] at h
+    rcases h with (h | h) | h
+    · subst h; rfl
+    · subst h; rfl
+    · obtain ⟨h, hi⟩ := h; subst h
+      simp [shadowCfg, shadowLinks, hi]
+  visit_rej := by
+    intro r h
+    rcases r with ⟨u, st, l, i, t⟩
+    simp only [shadowAcc, Bool.or_eq_false_iff, Bool.and_eq_false_iff, beq_eq_false_iff_ne] at h
+    obtain ⟨⟨h0, h1⟩, h2⟩ := h
+    simp only [shadowCfg]
+    match u, h0, h1, h2 with
+    | 0, h0, _, _ => exact absurd rfl h0
+    | 1, _, h1, _ => exact absurd rfl h1
+    | 2, _, _, h2 =>
+      rcases h2 with h2 | h2
+      · exact absurd rfl h2
+      · simp at h2; simp [h2]
+    | (n + 3), _, _, _ => rfl
+  key_acc := by
+    intro a b h
+    simp [shadowAcc, h.1, h.2.2]
+  key_links := by
+    intro a b h
+    simp [shadowLinks, h.1]
 
 end Wpull.Crawl
